@@ -63,6 +63,8 @@ RELS = [(0, 1, "Omega == kappa_X(PEDKR)"), (2, 3, "kappa == kappa_X(ED,KR)"), (4
 
 
 def cases(rng, tier):
+    for sq in gen.CLAMP_BAND + ["PEAGSTQNLVDK", "KEWSTQQYWD", "DRGMGCYFPP", "PPVYFMWQR", "SAKRKKRG", "KSCAVCK", "GKRKKRQ"]:
+        yield Case(block(sq, rng), {"kind": "reporting-band"})
     # the same query several times in a row on one object
     for c in gen.repeated_call_cases(rng, 8 if tier == "quick" else 60, ['omega', 'kappaX s000045,s000044 s00004b,s000052'], gen.CLAMP_BAND[:8] if True else ()):
         yield c
